@@ -33,7 +33,7 @@ Thresholds2(X, f, pos) == LET V == {Val(X, f, pos, i) : i \in Given(X, f, pos)} 
 StumpCands(X, R, pos, f) ==
     { LET G == Given(X, f, pos) Lo == {i \in G : 2 * Val(X, f, pos, i) < t2} Hi == G \ Lo nl == Cardinality(Lo) nh == Cardinality(Hi)
       IN <<Total2(R, pos) * nl * nh - SqSum(R, pos, Lo) * nh - SqSum(R, pos, Hi) * nl, nl * nh>> : t2 \in Thresholds2(X, f, pos) }
-\* ---- dense table: one mean per label (all labels present among the given positions)
+\* ---- dense table: one mean per label / per set of labels (all those present among the given positions)
 Labels(X, f, pos) == {Val(X, f, pos, i) : i \in Given(X, f, pos)}
 Group(X, f, pos, lab) == {i \in Given(X, f, pos) : Val(X, f, pos, i) = lab}
 \* common denominator: the least common multiple of the group sizes (at most 60 for up to 12 positions)
@@ -69,7 +69,8 @@ Cands(kind, kinds, X, R, pos) ==
     UNION { CASE kind = "stump" /\ kinds[f] = "scalar" -> StumpCands(X, R, pos, f)
               [] kind = "affine" /\ kinds[f] = "scalar" -> AffineCands(X, R, pos, f)
               [] kind = "hinge" /\ kinds[f] = "scalar" -> HingeCands(X, R, pos, f)
-              [] kind = "dense-table" /\ kinds[f] = "sclass" -> {DenseCand(X, R, pos, f)}      \* also the empty table (no label given): predicts 0
-              [] kind = "dstep-table" /\ kinds[f] = "sclass" -> DStepCands(X, R, pos, f)
+              \* categorical features: single-label (the value is the label) and multi-label (the value encodes the set of labels)
+              [] kind = "dense-table" /\ kinds[f] \in {"sclass", "mclass"} -> {DenseCand(X, R, pos, f)}      \* also the empty table (no label given): predicts 0
+              [] kind = "dstep-table" /\ kinds[f] \in {"sclass", "mclass"} -> DStepCands(X, R, pos, f)
               [] OTHER -> {} : f \in DOMAIN X }
 ==========================================================================================
